@@ -84,6 +84,20 @@ pub struct Event {
     pub text: Option<Vec<u8>>,
 }
 
+/// What ExecutionEngine::execute returned for one line (Engine mode); kept in the world so that the
+/// outputs before a panic survive the unwinding.
+#[derive(Clone, Debug, PartialEq)]
+pub struct EngineOut {
+    pub error: Option<String>,
+    pub has_row: bool,
+    pub columns: Vec<String>,
+    /// Debug rendering of every Value, row by row
+    pub rows: Vec<Vec<String>>,
+    pub printed: Vec<String>,
+    pub updated: bool,
+    pub reached_limit: bool,
+}
+
 pub struct VFile {
     pub path: String,
     pub data: Vec<u8>,
@@ -123,6 +137,7 @@ pub struct World {
     pub enoent: usize,
     pub getrandom_calls: usize,
     pub hard_stop: Option<std::sync::mpsc::Sender<()>>,
+    pub engine: Vec<EngineOut>,
 }
 
 impl World {
@@ -152,6 +167,7 @@ impl World {
             enoent: 0,
             getrandom_calls: 0,
             hard_stop: None,
+            engine: Vec::new(),
         }
     }
 
